@@ -676,6 +676,21 @@ class Engine2:
                 self._check(v, st)
 
     def _check_node(self, x, st):
+        # floating -> integer conversions: the operand must be representable (negative -> unsigned is undefined)
+        k0 = x.get('k', '')
+        src = None
+        if k0.endswith('CastExpr') and 'e' in x and (x.get('t') or {}).get('w') and not (x.get('t') or {}).get('f') and not (x.get('t') or {}).get('bool'):
+            it = x['e'].get('ot') or x['e'].get('t') or {}
+            if it.get('f'):
+                src, tt = x['e'], x['t']
+        elif (x.get('t') or {}).get('f') and (x.get('ot') or {}).get('w') and not (x.get('ot') or {}).get('f') and not (x.get('ot') or {}).get('bool'):
+            src, tt = dict(x, ot=x.get('t')), x['ot']
+        if src is not None:
+            v = self.ev(src, st)
+            r = trange(tt)
+            ok = v is not None and r is not None and v.lo > r.lo - 1 and v.hi < r.hi + 1
+            self.obl.append(Obligation2(self.fn.name, x.get('ln'), 'convert %s to %s' % (show(src)[:60], tt.get('s')), v, '[%s, %s]' % (r.lo, r.hi) if r else '?', ok,
+                                        True, kind='fcast'))
         for x in (x,):
             k = x.get('k')
             if k == 'ArraySubscriptExpr' and 'ext' in x:
@@ -985,6 +1000,13 @@ class Engine2:
                 e2 = e2['e']
             else:
                 break
+        all_labels = set()
+        for it in items:
+            x = it
+            while isinstance(x, dict) and x.get('k') in ('CaseStmt', 'DefaultStmt'):
+                if x.get('k') == 'CaseStmt' and 'value' in x:
+                    all_labels.add(x['value'])
+                x = x.get('sub')
         for idx, it in enumerate(items):
             labels = []
             x = it
@@ -996,8 +1018,16 @@ class Engine2:
             if 'default' in labels:
                 has_default = True
             nums = [l for l in labels if l != 'default']
-            if val is not None and not val.f and 'default' not in labels and all(l < val.lo or l > val.hi for l in nums):
-                continue
+            if val is not None and not val.f:
+                hit = any(val.lo <= l <= val.hi for l in nums)
+                if 'default' in labels:
+                    # default is taken only by values that match no explicit label of the whole switch
+                    others = all_labels - set(nums)
+                    uncovered = not (val.hi - val.lo < 4096 and all(v in all_labels for v in range(int(val.lo), int(val.hi) + 1)))
+                    if not hit and not uncovered:
+                        continue
+                elif not hit:
+                    continue
             s1 = st.copy()
             if ckey is not None and nums and 'default' not in labels:
                 s1.env[ckey] = V(min(nums), max(nums), False, bool(val and val.inp))
@@ -1073,8 +1103,52 @@ class Engine2:
                 bkeys, _ = self._assigned({'b': body})
                 if lkey is not None and up and lkey not in bkeys:
                     iv = lkey
-        hst = st.copy()
-        havoc(hst)
+        # loop invariant by iteration: join(entry, state after one more iteration) until stable; widen (havoc) otherwise
+        hst = None
+        if not getattr(self, '_in_fix', False):
+            self._in_fix = True
+            saved = (self.record, self.record_stores, len(self.obl), len(self.stores), len(self.calls), len(self.div_obl), set(self.visited), list(self.returns), dict(self.goto_states))
+            self.record = False; self.record_stores = False
+            try:
+                cand = st.copy()
+                if iv is not None and entry.env.get(iv) is not None:
+                    r0 = trange((strip_keep(strip_keep(cond)['l']).get('t') or {}))
+                    cand.env[iv] = V(entry.env[iv].lo, r0.hi if r0 is not None else (1 << 63), False, entry.env[iv].inp)
+                for _ in range(4):
+                    b0 = cand.copy()
+                    if cond is not None and k != 'DoStmt':
+                        self.refine(cond, True, b0)
+                    f0, ex0 = self.stmt(body, b0)
+                    nxt = cand
+                    outs0 = [f0] + [sx for kind, sx in ex0 if kind == 'continue']
+                    for o0 in outs0:
+                        if o0 is None:
+                            continue
+                        o1 = o0.copy()
+                        if inc is not None:
+                            self._effects(inc, o1)
+                        if iv is not None:
+                            o1.env[iv] = cand.env.get(iv)
+                        nxt = join_states(nxt, o1, self.min_sizes)
+                    stable = all((nxt.env.get(kk) is not None and cand.env.get(kk) is not None and nxt.env[kk].eq(cand.env[kk])) or (kk not in nxt.env and kk not in cand.env) for kk in set(cand.env) | set(nxt.env)) and nxt.facts == cand.facts
+                    cand = nxt
+                    if stable:
+                        hst = cand.copy()
+                        break
+            except RecursionError:
+                hst = None
+            finally:
+                self.record, self.record_stores = saved[0], saved[1]
+                del self.obl[saved[2]:]; del self.stores[saved[3]:]; del self.calls[saved[4]:]; del self.div_obl[saved[5]:]
+                self.visited = saved[6]; self.returns = saved[7]; self.goto_states = saved[8]
+                self._in_fix = False
+            if hst is not None and fields:
+                # calls in the body may change member state the iteration cannot see
+                for k2 in [k2 for k2 in hst.env if k2[0] == 'f']:
+                    del hst.env[k2]
+        if hst is None:
+            hst = st.copy()
+            havoc(hst)
         if iv is not None and entry.env.get(iv) is not None:
             start = entry.env[iv]
             r = trange(strip_keep(strip_keep(cond)['l']).get('t') or {})
